@@ -85,6 +85,23 @@ def FieldEv : Event → Prop
   | .emit t _ _ v => t = Tok.field → ∃ c cs, v = 46 :: c :: cs
   | _ => True
 
+/-- only spaces, tabs, CRs and LFs -/
+def AllSpace (b : Bytes) : Prop := ∀ c ∈ b, isSpaceByte c = true
+
+/-- what each of the five `l.ignore()` sites may drop -/
+def IgnK (d : Delims) : IgnKind → Bytes → Prop
+  | .trimLeft, v => AllSpace v
+  | .markLeft, v => v = leftTrimMarker
+  | .comment, v => ∃ body, v = d.lcomment ++ body ++ d.rcomment
+  | .markRight, v => ∃ ws, AllSpace ws ∧ v = ws ++ rightTrimMarker
+  | .trimRight, v => AllSpace v
+
+/-- every range the lexer dropped is a whitespace run, a trim marker (with the space item pending in
+    front of it) or a whole comment -/
+def IgnEv (inp : Bytes) (d : Delims) : Event → Prop
+  | .ignore k a b => IgnK d k ((inp.drop a.toNat).take (b - a).toNat)
+  | _ => True
+
 /-- the cursor invariant between operations -/
 structure B (inp : Bytes) (d : Delims) (lo : Int) (s : St) : Prop where
   input : s.input = inp
@@ -97,6 +114,7 @@ structure B (inp : Bytes) (d : Delims) (lo : Int) (s : St) : Prop where
   fields : ∀ e ∈ s.events, FieldEv e
   /-- a floor under `start`: lets a caller read off how far a state function moved it -/
   low : lo ≤ s.start
+  ign : ∀ e ∈ s.events, IgnEv inp d e
 
 /-- right after a `next`: the rune just read (of width `width`) can be given back -/
 structure N (inp : Bytes) (d : Delims) (lo : Int) (s : St) : Prop extends B inp d lo s where
